@@ -192,11 +192,12 @@ func writeFile(name string, f *ast.File) {
 }
 
 type rewriter struct {
-	info    *types.Info
-	file    *ast.File
-	changed bool
-	skip    map[ast.Node]bool // nodes inside select comm clauses: left as they are
-	commaOK map[ast.Node]bool // receive expressions in v, ok := <-ch position
+	info       *types.Info
+	file       *ast.File
+	changed    bool
+	needAtomic bool
+	skip       map[ast.Node]bool // nodes inside select comm clauses: left as they are
+	commaOK    map[ast.Node]bool // receive expressions in v, ok := <-ch position
 }
 
 func simSel(name string) ast.Expr {
@@ -219,7 +220,12 @@ func tmp(prefix string) *ast.Ident {
 func (r *rewriter) run() bool {
 	astutil.Apply(r.file, r.pre, r.post)
 	if r.changed {
-		astutil.AddNamedImport(fset, r.file, "simrt", simPath)
+		if usesName(r.file, "simrt") {
+			astutil.AddNamedImport(fset, r.file, "simrt", simPath)
+		}
+		if r.needAtomic {
+			astutil.AddNamedImport(fset, r.file, "simatomic", strings.TrimSuffix(simPath, "simrt")+"simatomic")
+		}
 		// imports that lost their last use (sync/atomic, when every use was a call)
 		for _, imp := range r.file.Imports {
 			p := strings.Trim(imp.Path.Value, `"`)
@@ -235,6 +241,19 @@ func (r *rewriter) run() bool {
 		}
 	}
 	return r.changed
+}
+
+func usesName(f *ast.File, name string) bool {
+	used := false
+	ast.Inspect(f, func(n ast.Node) bool {
+		if sel, ok := n.(*ast.SelectorExpr); ok {
+			if id, ok := sel.X.(*ast.Ident); ok && id.Name == name && id.Obj == nil {
+				used = true
+			}
+		}
+		return !used
+	})
+	return used
 }
 
 func usesImport(f *ast.File, imp *ast.ImportSpec, path string) bool {
@@ -518,7 +537,8 @@ func (r *rewriter) rewriteCall(n *ast.CallExpr) ast.Expr {
 				if pn.Imported().Path() == "sync/atomic" {
 					if _, isFunc := r.info.Uses[fun.Sel].(*types.Func); isFunc {
 						counts["atomic"]++
-						return &ast.CallExpr{Fun: simSel(fun.Sel.Name), Args: n.Args, Ellipsis: n.Ellipsis}
+						r.needAtomic = true
+						return &ast.CallExpr{Fun: &ast.SelectorExpr{X: ast.NewIdent("simatomic"), Sel: ast.NewIdent(fun.Sel.Name)}, Args: n.Args, Ellipsis: n.Ellipsis}
 					}
 				}
 				return nil
